@@ -45,7 +45,7 @@ def _core_post(f, args, res):
             ('core: stored value is the returned array', f.getattr(self, 'value') is res)]
 
 
-@contract('pyPRISM/closure/PercusYevick.py::PercusYevick.calculate', props=['C09', 'C03', 'C01'], only=C03_ONLY)
+@contract('pyPRISM/closure/PercusYevick.py::PercusYevick.calculate', props=['C09', 'C03', 'C01', 'C02'], only=C03_ONLY)
 def PercusYevick_calculate(self, r, gamma):
     if self.potential is None:
         raise AssertionError
@@ -62,7 +62,7 @@ def PercusYevick_calculate(self, r, gamma):
     return self.value
 
 
-@contract('pyPRISM/closure/HyperNettedChain.py::HyperNettedChain.calculate', props=['C09', 'C03', 'C01'], only=C03_ONLY)
+@contract('pyPRISM/closure/HyperNettedChain.py::HyperNettedChain.calculate', props=['C09', 'C03', 'C01', 'C02'], only=C03_ONLY)
 def HyperNettedChain_calculate(self, r, gamma):
     if self.potential is None:
         raise AssertionError
@@ -79,7 +79,7 @@ def HyperNettedChain_calculate(self, r, gamma):
     return self.value
 
 
-@contract('pyPRISM/closure/MeanSphericalApproximation.py::MeanSphericalApproximation.calculate', props=['C09', 'C03', 'C01'], only=C03_ONLY)
+@contract('pyPRISM/closure/MeanSphericalApproximation.py::MeanSphericalApproximation.calculate', props=['C09', 'C03', 'C01', 'C02'], only=C03_ONLY)
 def MeanSphericalApproximation_calculate(self, r, gamma):
     if self.potential is None:
         raise AssertionError
